@@ -61,7 +61,8 @@ def rt_reference(prog):
 def run_runtime(ctx, build, scratch, tier):
     exe = build.harness("san", "mark_driver", ["mark_driver.c"])
     defs = ["T0,1,a", "T0,0,a", "T0,1,b", "T1,0,a", "L0,1,x", "L0,1,y", "L0,2,x", "L1,1,x", "L0,0,x", "T100,0,a", "L0,-1,x"]
-    evs = ["P0,1", "P0,2", "O0,1", "S0,1", "S1,2", "P0,0", "O1,0", "S0,0", "P5,1"]
+    # (only zero is a forbidden value: negative ones are legal)
+    evs = ["P0,1", "P0,2", "O0,1", "S0,1", "S1,2", "P0,0", "O1,0", "S0,0", "P5,1", "P0,-1", "S1,-2"]
     alpha = defs + evs
     depth = 3 if tier == "quick" else 4
     progs = [list(p) for d in range(0, depth + 1) for p in itertools.product(alpha, repeat=d)]
